@@ -7,10 +7,22 @@
 From Coq Require Import NArith ZArith List Bool String.
 From Pq Require Import Base.Bytes Thrift.Varint Thrift.Compact Thrift.Idl Thrift.IdlPinned
   Impl.CThrift Impl.CThriftSpec Impl.CThriftTyped Proofs.CThriftTypedProofs Proofs.CompactProofs Proofs.CThriftProofs Proofs.CThriftRead
-  Proofs.CThriftRoundtrip Proofs.CThriftMain Proofs.CThriftReser Proofs.CThriftTotal.
+  Proofs.CThriftRoundtrip Proofs.CThriftMain Proofs.CThriftReser Proofs.CThriftTotal Proofs.CThriftRepaired.
 Import ListNotations.
 Open Scope list_scope.
 Open Scope N_scope.
+
+(* The writer model and every theorem about it are parametric in the list of field ids the loop of write_thrift
+   runs over (any ascending list within the short-form range).  The PINNED code is the instance ids13 =
+   range(1, 14); below, unqualified names are that instance.  The REPAIRED serialiser (ids14 = range(1, 15), growing
+   bounds-checked buffer) is at the end of the file. *)
+Local Notation ser := (CThrift.ser ids13).
+Local Notation to_bytes := (CThrift.to_bytes ids13).
+Local Notation w_top := (CThrift.w_top ids13).
+Local Notation t_top := (CThriftSpec.t_top ids13).
+Local Notation dom := (CThriftSpec.dom ids13).
+Local Notation typed_ok T := (CThriftTyped.typed_ok T ids13).
+Local Notation reser_ok := (CThriftReser.reser_ok 13).
 
 (* the specification's reader inverts the specification's writer: every representable value tree,
    any nesting up to the protocol's depth limit, any sizes, any trailing bytes *)
@@ -25,7 +37,7 @@ Print Assumptions C10_compact_roundtrip.
    object denotes (t_top: wire type of each value, i32/i64 chosen by the "i32"/"i32list" markers);
    the serialiser raises exactly when the object denotes no tree. *)
 Theorem C10_conformance_bytes : forall v, ser v = option_map wr (t_top v).
-Proof. exact ser_spec. Qed.
+Proof. exact (ser_spec ids13 ids13_asc). Qed.
 Print Assumptions C10_conformance_bytes.
 
 (* IDL conformance of the emitted bytes, from a condition on the PYTHON object: if every value has the shape
@@ -38,7 +50,7 @@ Print Assumptions C10_conformance_bytes.
 Theorem C10_typed_conformance : forall d n v bs,
   typed_ok pinned d (FStruct n) 0 v = true -> ser v = Some bs ->
   exists t, bs = wr t /\ conforms pinned lenient (FStruct n) t = true.
-Proof. exact (typed_conformance pinned). Qed.
+Proof. exact (typed_conformance pinned ids13 ids13_asc). Qed.
 Print Assumptions C10_typed_conformance.
 
 (* the round trip of cencoding.pyx (partial: the full statement "for every metadata structure" is false on
@@ -53,7 +65,7 @@ Theorem C10_roundtrip_partial : forall a b c,
   exists bs, ser (PDict a b c) = Some bs /\
     (forall cap, len bs <= cap -> to_bytes cap (PDict a b c) = OBytes bs) /\
     exists v', from_buffer bs = Some (v', []) /\ obj_eq (PDict a b c) v' = true.
-Proof. exact roundtrip_total. Qed.
+Proof. exact (roundtrip_total ids13 ids13_asc). Qed.
 Print Assumptions C10_roundtrip_partial.
 
 (* read_thrift/read_list parse the SPECIFICATION's encoding of every value tree in the class they handle
@@ -78,7 +90,7 @@ Theorem C10_reserialise_partial : forall fs rest,
   exists v, from_buffer (wr (TStruct fs) ++ rest) = Some (v, rest) /\ ser v = Some (wr (TStruct fs)).
 Proof.
   intros fs rest Hd Hw Hr Hk. exists (pv_of (TStruct fs)).
-  split; [exact (from_buffer_spec fs rest Hd Hw Hr)|exact (reserialise fs Hd Hk)].
+  split; [exact (from_buffer_spec fs rest Hd Hw Hr)|exact (reserialise ids13 ids13_asc 13 in_ids13 fs Hd Hk)].
 Qed.
 Print Assumptions C10_reserialise_partial.
 
@@ -93,6 +105,17 @@ Proof.
 Qed.
 Print Assumptions C10_i16_reserialise_refuted.
 
+(* refuted (structs outside the property's own list): write_list has no list<bool> - a Python bool is an int, so
+   ColumnIndex.null_pages = [True] denotes list<i32> [1]; the emitted bytes do not pass the IDL check, whatever
+   the markers (here: IDL-consistent ones) *)
+Theorem C10_list_bool_refuted : exists v t,
+  v = PDict false (Some [4%Z]) [(1%Z, PList [PBool true]); (2%Z, PList [PBytes [97]]); (3%Z, PList [PBytes [98]]); (4%Z, PInt 0)]
+  /\ t_top v = Some t /\ conforms pinned lenient (FStruct "ColumnIndex"%string) t = false.
+Proof.
+  eexists. eexists. split; [reflexivity|]. split; [vm_compute; reflexivity|]. vm_compute. reflexivity.
+Qed.
+Print Assumptions C10_list_bool_refuted.
+
 (* refuted, cencoding.pyx `for i in range(1, 14)`: field id 14 (ColumnMetaData.bloom_filter_offset,
    LogicalType.UUID) is dropped; the parsed-back object is not equal to the original *)
 Theorem C10_field14_refuted : exists b d',
@@ -105,7 +128,7 @@ Print Assumptions C10_field14_refuted.
    silently truncated to the buffer size - no error *)
 Theorem C10_truncation_refuted : forall cap v ops, w_top v = Some ops -> all_wb ops = true ->
   to_bytes cap v = OBytes (firstn (N.to_nat cap) (flat ops)).
-Proof. exact silent_truncation. Qed.
+Proof. exact (silent_truncation ids13). Qed.
 Print Assumptions C10_truncation_refuted.
 
 (* refuted, write_thrift's memcpy: for ANY capacity there is an object (one binary field of cap+1
@@ -113,6 +136,32 @@ Print Assumptions C10_truncation_refuted.
 Theorem C10_overflow_refuted : forall cap, to_bytes cap (wbig (S (N.to_nat cap))) = OOob.
 Proof. exact overflow_any_capacity. Qed.
 Print Assumptions C10_overflow_refuted.
+
+(* ---- the REPAIRED serialiser (no code corresponds to it yet: a proved target for a Cython rebuild) ----------
+   `for i in range(1, 15)` and a bounds-checked buffer that grows.  The round trip needs no capacity hypothesis and
+   covers every field id the IDL declares; only the guards that are about Python values outside the IDL remain
+   (no floats, homogeneous lists, sizes below 2^31). *)
+Theorem C10_roundtrip_full_repaired : forall a b c,
+  CThriftSpec.dom ids14 63 (PDict a b c) = true ->
+  exists bs, (forall cap0, to_bytes_grow ids14 cap0 (PDict a b c) = OBytes bs) /\
+    exists v', from_buffer bs = Some (v', []) /\ obj_eq (PDict a b c) v' = true.
+Proof. exact roundtrip_repaired. Qed.
+Print Assumptions C10_roundtrip_full_repaired.
+
+Theorem C10_conformance_bytes_repaired : forall v, CThrift.ser ids14 v = option_map wr (CThriftSpec.t_top ids14 v).
+Proof. exact ser_spec_repaired. Qed.
+Print Assumptions C10_conformance_bytes_repaired.
+
+Theorem C10_reserialise_repaired : forall fs, (depth (TStruct fs) <= w_depth)%nat ->
+  CThriftReser.reser_ok 14 (TStruct fs) = true -> CThrift.ser ids14 (pv_of (TStruct fs)) = Some (wr (TStruct fs)).
+Proof. exact reserialise_repaired. Qed.
+Print Assumptions C10_reserialise_repaired.
+
+(* the witness of C10_field14_refuted round-trips under the repaired loop, whatever the initial buffer size *)
+Theorem C10_field14_kept_repaired : CThriftSpec.dom ids14 63 w14 = true /\
+  exists b d', (forall cap0, to_bytes_grow ids14 cap0 w14 = OBytes b) /\ from_buffer b = Some (d', []) /\ obj_eq w14 d' = true.
+Proof. exact field14_kept. Qed.
+Print Assumptions C10_field14_kept_repaired.
 
 (* non-vacuity: a KeyValue-shaped object with an i32-marked and an i64 field; its bytes; the strict
    specification reader gives back the denoted tree; a truncating capacity really truncates *)
